@@ -15,6 +15,7 @@ import z3
 
 from pyvc.core import (SV, SInt, SBool, SSeq, SDict, Obj, Val, VNone, BoolS, IntS, to_val, to_int, to_bool_term,
                        run, run_raises)
+from pyvc.core import Unsupported
 from pyvc.driver import Ob
 from pyvc.ground import Q
 from pyvc.expr import seq_of
@@ -39,7 +40,13 @@ def call_clauses(chk, I, mod, cls, kind):
                 chk.add(Ob(func, nm, f"p{pi}", pc, goal))
         if out.kind == "end":
             continue
-        _call_one(chk, func, kind, is_un, pi, path, out, cur)
+        n0 = len(chk.obs)
+        try:
+            _call_one(chk, func, kind, is_un, pi, path, out, cur)
+        except Unsupported as e:
+            # engine limit met while stating the clauses (lazily evaluated comprehension bodies): undischarged, not a crash
+            del chk.obs[n0:]
+            _fail_all(chk, func, CALL_CLAUSES, f"p{pi}", path.hyps, {"engine": f"Unsupported {e}"})
     chk.add(Ob(func, "cover", "pre", results[0][0].hyps, z3.BoolVal(True), expect="sat"))
 
 
